@@ -12,6 +12,7 @@ import LpProofs.C20.Cover2
 import LpProofs.C20.Bytes
 import LpProofs.C20.Chunk
 import LpProofs.C20.Ragged
+import LpProofs.C20.Box
 namespace Lp.C20
 
 /-! ## Initialisation order -/
